@@ -1,5 +1,6 @@
 //! Checks over the network crate (through its `verif` hook): C10, C12, C13, C14, C18, C19 and the
 //! network halves of C09 / C15.
+pub mod c09;
 pub mod c10;
 pub mod c12;
 pub mod c13;
@@ -15,6 +16,7 @@ pub fn engine_main() -> ! {
     common::set_fuzz_registry(fuzz_registry());
     let env = common::Env::from_args();
     let code = match env.property.as_str() {
+        "C09" => c09::main(&env),
         "C10" => c10::main(&env),
         "C12" => c12::main(&env),
         "C13" => c13::main(&env),
@@ -34,6 +36,8 @@ pub fn engine_main() -> ! {
 pub fn fuzz_registry() -> Vec<common::FuzzEntry> {
     use common::fuzz_entry;
     vec![
+        fuzz_entry!("C09", "net_types", 121, c09::gen_net, c09::check_net),
+        fuzz_entry!("C09", "decoded_values", 161, c10::fuzz_gen_dec, c09::check_decoded),
         fuzz_entry!("C10", "decoders", 161, c10::fuzz_gen_dec, c10::check_dec),
         fuzz_entry!("C10", "noise_garbage", 80, c10::gen_noise, c10::check_noise),
         fuzz_entry!("C10", "mux_raw", 120, c10::gen_mux_raw, c10::check_mux_raw),
